@@ -111,7 +111,12 @@ class Terminologies(dict):
         """
         thread = threading.Thread(target=self._load_and_unregister, args=(url,))
         self.loading[url] = thread
-        thread.start()
+        try:
+            thread.start()
+        except Exception:
+            # A loader that could not be started is not at work.
+            self.loading.pop(url, None)
+            raise
         return thread
 
     def _load_and_unregister(self, url):
